@@ -104,7 +104,7 @@ func execPlan(p *Plan) (*oneOut, error) {
 	of := f.Name() + ".out"
 	defer os.Remove(of)
 	cmd := exec.Command(self, "-test.run=^TestOne$", "-test.timeout=150s")
-	cmd.Env = append(os.Environ(), "LIVESIM_MODE=one", "LIVESIM_CASE="+f.Name(), "LIVESIM_OUT="+of, "GOMAXPROCS=2")
+	cmd.Env = append(os.Environ(), "LIVESIM_MODE=one", "LIVESIM_CASE="+f.Name(), "LIVESIM_OUT="+of, "GOMAXPROCS=1")
 	ob, err := cmd.CombinedOutput()
 	b, rerr := os.ReadFile(of)
 	if rerr != nil {
@@ -186,11 +186,14 @@ func hasClause(fs []Finding, clause string) bool {
 // shrinkPlan drops steps while the same clause keeps failing; every candidate
 // runs in a fresh process, like the original.
 func shrinkPlan(p *Plan, clause string) *Plan {
-	cur := &Plan{Seed: p.Seed, Run: p.Run, Steps: append([]Step(nil), p.Steps...)}
+	cur := &Plan{Seed: p.Seed, Run: p.Run, BurnIDs: p.BurnIDs, Steps: append([]Step(nil), p.Steps...)}
+	if clause == "C20.no-answer" {
+		return cur // every candidate would cost the full timeout
+	}
 	evals := 0
 	for chunk := len(cur.Steps) / 2; chunk >= 1; chunk /= 2 {
 		for i := 0; i+chunk <= len(cur.Steps) && evals < 40; {
-			cand := &Plan{Seed: p.Seed, Run: p.Run}
+			cand := &Plan{Seed: p.Seed, Run: p.Run, BurnIDs: p.BurnIDs}
 			cand.Steps = append(append([]Step{}, cur.Steps[:i]...), cur.Steps[i+chunk:]...)
 			o, err := execPlan(cand)
 			evals++
@@ -232,12 +235,14 @@ func TestReplay(t *testing.T) {
 		fmt.Printf("replay: %s is the record of a free-running stage; stored report:\n%s\n", rf.Clause, rf.Message)
 		return
 	}
-	c := newChecker()
-	runPlan(t, rf.Plan, c)
-	for _, f := range c.findings {
-		fmt.Printf("replay: %s: %s\n", f.Clause, f.Msg)
+	o, err := execPlan(rf.Plan)
+	if err != nil {
+		t.Fatal(err)
 	}
-	if hasClause(c.findings, rf.Clause) {
+	for _, f := range o.Findings {
+		fmt.Printf("replay: %s: %s\n", f.Clause, clip(f.Msg, 600))
+	}
+	if hasClause(o.Findings, rf.Clause) {
 		fmt.Printf("REPRODUCED property=C20 clause=%s\n", rf.Clause)
 		t.Fail()
 		return
@@ -285,7 +290,7 @@ func orchestrate() int {
 			defer wg.Done()
 			of := filepath.Join(tmp, fmt.Sprintf("w%d.json", w))
 			cmd := exec.Command(self, "-test.run=^TestWorker$", "-test.timeout=6h")
-			cmd.Env = append(os.Environ(), "LIVESIM_MODE=worker", fmt.Sprintf("LIVESIM_SEED=%d", seed), fmt.Sprintf("LIVESIM_OFFSET=%d", w), fmt.Sprintf("LIVESIM_STRIDE=%d", workers), fmt.Sprintf("LIVESIM_RUNS=%d", runs), "LIVESIM_OUT="+of, "GOMAXPROCS=2")
+			cmd.Env = append(os.Environ(), "LIVESIM_MODE=worker", fmt.Sprintf("LIVESIM_SEED=%d", seed), fmt.Sprintf("LIVESIM_OFFSET=%d", w), fmt.Sprintf("LIVESIM_STRIDE=%d", workers), fmt.Sprintf("LIVESIM_RUNS=%d", runs), "LIVESIM_OUT="+of, "GOMAXPROCS=1")
 			ob, err := cmd.CombinedOutput()
 			if err != nil {
 				errs[w] = fmt.Errorf("worker %d: %v\n%s", w, err, tail(string(ob), 3000))
@@ -376,6 +381,7 @@ func orchestrate() int {
 	// report one finding per clause, verified in a fresh process
 	sort.SliceStable(tot.Findings, func(i, j int) bool { return tot.Findings[i].Finding.Clause < tot.Findings[j].Finding.Clause })
 	seen := map[string]bool{}
+	infra := 0
 	for _, f := range tot.Findings {
 		if seen[f.Finding.Clause] {
 			continue
@@ -394,8 +400,12 @@ func orchestrate() int {
 		cmd.Env = append(os.Environ(), "LIVESIM_MODE=replay", "LIVESIM_CASE="+path)
 		ob, _ := cmd.CombinedOutput()
 		if !bytes.Contains(ob, []byte("REPRODUCED property=C20 clause="+f.Finding.Clause)) || bytes.Contains(ob, []byte("NOT-REPRODUCED")) {
-			fmt.Fprintf(os.Stderr, "INFRASTRUCTURE: fresh-process replay of %s did not reproduce: %s\n", path, tail(string(ob), 800))
-			return 2
+			// never a VIOLATION; other findings of the batch are still reported
+			fmt.Fprintf(os.Stderr, "INFRASTRUCTURE: fresh-process replay of %s did not reproduce (dropped): %s\n", path, tail(string(ob), 400))
+			os.Remove(path)
+			nviol--
+			infra++
+			continue
 		}
 		fmt.Printf("VIOLATION property=C20 replay=%s\n  clause=%s %s\n", path, f.Finding.Clause, clip(f.Finding.Msg, 600))
 		rc = 1
@@ -428,6 +438,9 @@ func orchestrate() int {
 		return 2
 	}
 	fmt.Printf("livesim: C20 %s: runs=%d evaluations=%d distinct_nontrivial=%d wall=%.1fs violations=%d\n", tier, tot.Runs, tot.Evals, len(distinct), wall, nviol)
+	if rc == 0 && infra > 0 {
+		return 2
+	}
 	return rc
 }
 
